@@ -3150,6 +3150,28 @@ package goatlang
 //@   requires wfC(c) && tok != nil && len(tok.Tokens) >= 1 && tokArr(arr(tok.Tokens)) && (forall j int :: 0 <= j && j < len(tok.Tokens) ==> tok.Tokens[j] != nil)
 //@   ensures#map typ.base() == TypeMap ==> len(res) == 1 && res[0].Code == codeNewMap
 //@   ensures#slice typ.base() == TypeSlice ==> len(res) >= 1 && res[len(res)-1].Code == codeMake
+//@ -- a composite literal pushes exactly as many values as its NEWSLICE says it pops: one toData
+//@ -- per element token, and the count operand is that number (the recursive calls are used through
+//@ -- the contract being proved)
+//@ func (*compiler).toData
+//@   property C07 C11
+//@   axioms TOKARR
+//@   requires wfC(c) && data != nil
+//@   modifies allbut(A$instruction,H$token)
+//@   allocates elems(instruction) elems(Value) elems(string) elems(int) lookup token
+//@   ensures#wf wfC(c) && keepsC(c) && tokensKept()
+//@   ensures#fresh len(result) == 0 || isfresh(arr(result))
+//@   ensures#slicecount old((data.Symbol == ";" || data.Symbol == ":") && typ.base() == TypeSlice) ==> len(result) >= 1 && result[len(result)-1].Code == codeNewSlice && int(result[len(result)-1].B) == old(len(data.Tokens)) && calls("(*compiler).toData") == old(len(data.Tokens))
+//@ func (*compiler).toData loop 0
+//@   invariant wfC(c) && keepsC(c) && tokensKept() && (cap(res) == 0 || isfresh(arr(res)))
+//@   iterassume t != nil
+//@ func (*compiler).toData loop 1
+//@   invariant wfC(c) && keepsC(c) && tokensKept() && (cap(res) == 0 || isfresh(arr(res)))
+//@   invariant#count calls("(*compiler).toData") == rangeidx
+//@   iterassume t != nil
+//@ func (*compiler).toData loop 2
+//@   invariant wfC(c) && keepsC(c) && tokensKept() && (cap(res) == 0 || isfresh(arr(res))) && i >= 0
+//@   assume forall j int :: 0 <= j && j < len(data.Tokens) ==> data.Tokens[j] != nil
 //@ -- an init function is called where it is declared, every time its package is compiled
 //@ func (*compiler).compile case "init"
 //@   property C15
